@@ -43,7 +43,7 @@ CHECKS = {
         "design": "DESIGN.md section 5 C14",
     },
     "C02": {
-        "text": "Coq, over the abstract device + two-slot journal protocol (Model/Device.v), for every protocol history, every state and every crash image (any sub-multiset of the un-synced writes, each possibly torn): the device reopens and its contents are those of some quiescent state at or after the last acknowledgement (ack_durable); within a transaction the outcome is all-or-nothing (crash_atomic); new-record batches and retirement of superseded generations are admissible transactions. Tie: the real device history of traced workloads must be accepted by the extracted Coq monitor (journal discipline), crash images rebuilt from the trace are reopened by the real code and by the byte-level recovery model (must agree), and an oracle checks every real reopen against the per-key acknowledgement window. Found and repaired with it: F3 (split retired extent loses an acknowledged key) and F4 (unsynced initial metadata).",
+        "text": "Coq, over the abstract device + two-slot journal protocol (Model/Device.v), for every protocol history, every state and every crash image (any sub-multiset of the un-synced writes, each possibly torn): the device reopens and its contents are those of some quiescent state at or after the last acknowledgement (ack_durable); within a transaction the outcome is all-or-nothing (crash_atomic); new-record batches and retirement of superseded generations are admissible transactions. Also proved over Model/Gate.v (Record::successor_is_durable_or_deleted, the gate consulted before the extent of a superseded generation is retired, with its memo bits): a positive answer means the generation was deleted outright or its successor chain reaches a generation that is on the device or ends in a deleted one -- the newest durable generation of a key is never the one retired; the gate refuses only when the chain ends in a live generation that is not on the device; memo bits stay sound under publication, deletion and supersession; tied by T-eq on synthetic chains (hook H12). Tie: the real device history of traced workloads must be accepted by the extracted Coq monitor (journal discipline), crash images rebuilt from the trace are reopened by the real code and by the byte-level recovery model (must agree), and an oracle checks every real reopen against the per-key acknowledgement window. Found and repaired with it: F3 (split retired extent loses an acknowledged key) and F4 (unsynced initial metadata).",
         "note": TRUST + " The abstract device treats an extent as one cell; scan alignment at block level is checked by execution only. Assumptions A1-A3 (checksum detection, sector atomicity, fsync contract) are hypotheses of the model.",
         "design": "DESIGN.md sections 4 and 5 C02",
     },
@@ -64,7 +64,7 @@ CHECKS = {
     },
     "C09": {
         "category": "proof",
-        "text": "PARTIAL proof. Proved in Coq (abstract device): at every protocol state -- hence at the state where a device call fails -- every crash image and the device as it stands recover to the contents before or after the transaction in flight and never to anything older than the last acknowledgement; a failed write-before or fsync changes no crash image; whatever part of a journaled batch reached the device is contained in the journaled extents (so it can be scrubbed, and is wiped by replay). Also proved: the scrub of a failed batch whose intent is durable (journal ACTIVE again in the other slot, markers, clear) is restartable at every point and recovers, from the failure to its end, exactly the cells the batch found. Also proved, over Model/FailPath.v (the failure-handling code itself: process_write_batch, failed_batch_outcome, cleanup_failed_allocations, release_scrubbed_allocations, release_allocations, quarantine, poison, on top of the real allocator model), for every choice of failing device calls and every sequence of inserts and flushes: a flush answers Ok only when the device is not poisoned and every queued entry has been published; no entry is ever lost (all published or all still queued, in order); a poisoned device never answers Ok again; a quarantined reservation stays with its entry; extents that may hold bytes of a failed batch are never free unless scrubbed. Tie: T-eq of that model against the real write path with the coordinator paused (hook H11), calls failed by plan, comparing result class, allocator statistics, usage counter, published sectors and the number of device calls after every flush. The model also carries deletes of published records and their retirement (journal, markers, clear, one release per group of adjacent extents; a failed retirement poisons the device) and the reclaim-and-retry of a pass the allocator refused, with the same theorems (flush_with_deletes_is_honest). NOT proved: error propagation across several workers/shards, the io_uring completion path (its IndeterminateWrite outcomes), retirements gated by readers or undurable successors, healing. Those are decided by execution: fault injection at every device call (before/after), pairs, persistent and healing failures on the real store with the Coq monitor accepting each faulted history and an oracle for acknowledgement windows, reads during failure, no hang/death, and flush success after healing.",
+        "text": "PARTIAL proof. Proved in Coq (abstract device): at every protocol state -- hence at the state where a device call fails -- every crash image and the device as it stands recover to the contents before or after the transaction in flight and never to anything older than the last acknowledgement; a failed write-before or fsync changes no crash image; whatever part of a journaled batch reached the device is contained in the journaled extents (so it can be scrubbed, and is wiped by replay). Also proved: the scrub of a failed batch whose intent is durable (journal ACTIVE again in the other slot, markers, clear) is restartable at every point and recovers, from the failure to its end, exactly the cells the batch found. Also proved, over Model/FailPath.v (the failure-handling code itself: process_write_batch, failed_batch_outcome, cleanup_failed_allocations, release_scrubbed_allocations, release_allocations, quarantine, poison, on top of the real allocator model), for every choice of failing device calls and every sequence of inserts and flushes: a flush answers Ok only when the device is not poisoned and every queued entry has been published; no entry is ever lost (all published or all still queued, in order); a poisoned device never answers Ok again; a quarantined reservation stays with its entry; extents that may hold bytes of a failed batch are never free unless scrubbed. Tie: T-eq of that model against the real write path with the coordinator paused (hook H11), calls failed by plan, comparing result class, allocator statistics, usage counter, published sectors and the number of device calls after every flush. The model also carries deletes of published records and their retirement (journal, markers, clear, one release per group of adjacent extents; a failed retirement poisons the device) and the reclaim-and-retry of a pass the allocator refused, with the same theorems (flush_with_deletes_is_honest). The clause that a failure never destroys the last durable generation of a key rests, for retirements of superseded generations, on the retirement gate proved over Model/Gate.v (see C02). NOT proved: error propagation across several workers/shards, the io_uring completion path (its IndeterminateWrite outcomes), retirements gated by readers or undurable successors, healing. Those are decided by execution: fault injection at every device call (before/after), pairs, persistent and healing failures on the real store with the Coq monitor accepting each faulted history and an oracle for acknowledgement windows, reads during failure, no hang/death, and flush success after healing.",
         "note": TRUST + " Fault model A4 (fail-stop; failed fsync = writes stay un-synced). io_uring-path faults are not injected.",
         "design": "DESIGN.md section 5 C09",
     },
